@@ -455,7 +455,10 @@ func c15Queue() []core.Scenario {
 		var pvs [3]any
 		wg.Add(3)
 		go func() { defer wg.Done(); pvs[0], _ = core.Catch(func() { _, errs[0] = q.Take() }) }()
-		go func() { defer wg.Done(); pvs[1], _ = core.Catch(func() { _, errs[1] = q.TakeWithTimeout(10 * time.Second) }) }()
+		go func() {
+			defer wg.Done()
+			pvs[1], _ = core.Catch(func() { _, errs[1] = q.TakeWithTimeout(10 * time.Second) })
+		}()
 		go func() {
 			defer wg.Done()
 			pvs[2], _ = core.Catch(func() {
@@ -858,14 +861,28 @@ func c15Stress(id string, comp int, seed int64) core.Scenario {
 			h := fpgo.Handler.NewByCh(make(chan func(), rng.Intn(3)))
 			for u := 0; u < users; u++ {
 				wg.Add(1)
-				go func() { defer wg.Done(); guard(func() { for i := 0; i < 200; i++ { h.Post(func() {}) } }) }()
+				go func() {
+					defer wg.Done()
+					guard(func() {
+						for i := 0; i < 200; i++ {
+							h.Post(func() {})
+						}
+					})
+				}()
 			}
 			closer = func() { guard(h.Close) }
 		case 1:
 			a := fpgo.ActorNewByOptionsGenerics(func(*fpgo.ActorDef[int], int) {}, make(chan int, rng.Intn(3)), map[string]interface{}{})
 			for u := 0; u < users; u++ {
 				wg.Add(1)
-				go func() { defer wg.Done(); guard(func() { for i := 0; i < 200; i++ { a.Send(i) } }) }()
+				go func() {
+					defer wg.Done()
+					guard(func() {
+						for i := 0; i < 200; i++ {
+							a.Send(i)
+						}
+					})
+				}()
 			}
 			closer = func() { guard(a.Close) }
 		case 2:
@@ -905,7 +922,14 @@ func c15Stress(id string, comp int, seed int64) core.Scenario {
 				SetWorkerSizeMaximum(3).SetWorkerSizeStandBy(1).SetWorkerBatchSize(1).SetPanicHandler(func(interface{}) { foreign.Add(1) })
 			for u := 0; u < users; u++ {
 				wg.Add(1)
-				go func() { defer wg.Done(); guard(func() { for i := 0; i < 200; i++ { p.Schedule(func() { runtime.Gosched() }) } }) }()
+				go func() {
+					defer wg.Done()
+					guard(func() {
+						for i := 0; i < 200; i++ {
+							p.Schedule(func() { runtime.Gosched() })
+						}
+					})
+				}()
 			}
 			closer = func() {
 				guard(p.Close)
